@@ -12,7 +12,8 @@ Line-protocol driver of the C16 error-handling model (stateless: one case per li
 * `<base>`, and `<resp>` unless it is `F:<k>` (handler returns error `k`), is a buffer:
   `B:<hex>` validated byte slice, `E:<k>` error buffer, `S:<hex>` NewCASBufferFromByteSlice,
   `C:<items>` / `R:<items>` CAS buffer over a scripted chunk reader / reader, `K:<items>` one half of
-  `CloneStream()` of a CAS buffer over a scripted chunk reader (the other half is discarded); items are
+  `CloneStream()` of a CAS buffer over a scripted chunk reader (the other half is discarded), `A:<obj>/<suffix>[/<prefix>]` NewValidatedBufferFromReaderAt over storage
+  holding prefix, object, suffix back to back (the prefix is invisible to the buffer); items are
   `.`-separated: hex data, `-` empty chunk, `!<k>` failure `k`; `_` = no items.
 
 Reply: `<result> log=<errors offered to OnError> done=<number of Done calls>`.
@@ -42,6 +43,13 @@ def buf? (d : Digest) (w : String) : Option Buf :=
   | ["C", x] => (items? x).map (Buf.chunks d)
   | ["R", x] => (items? x).map (Buf.reader d)
   | ["K", x] => (items? x).map (Buf.clone d)
+  | ["A", x] =>
+    match splitOnChar x '/' with
+    | [o, sfx] | [o, sfx, _] => do
+      let o ← hexBytes? o
+      let sfx ← hexBytes? sfx
+      pure (Buf.readerAt o sfx)
+    | _ => none
   | _ => none
 
 def resp? (d : Digest) (w : String) : Option Resp :=
